@@ -304,6 +304,15 @@ func checkFraming(p *Prog, r *Report) {
 		if loopHead == nil {
 			r.Undecided("R-FRAME.error-exit", k+": read loop", p.instrPos(cs), "decodePacket is not called inside a loop")
 		} else {
+			// progress: the length function only peeks, so an iteration that goes back to the loop head without the full read
+			// has consumed nothing and reads the same header again - forever (no error, no message, Stop() hangs)
+			qp := &pathQuery{loopHead: loopHead, noExit: true, discharge: func(x ssa.Instruction) bool { return x == ssa.Instruction(full) }}
+			if trail, spins := qp.findFromBlock(loopHead); spins {
+				r.Violation("R-FRAME.progress", k+": every iteration of the read loop consumes the message", p.instrPos(full),
+					"a path returns to the head of the read loop without the full read of the message body (e.g. a `continue` for an \"invalid\" length): nothing was consumed, the same bytes are peeked again and the reader goroutine spins forever; path "+p.describePath(f, trail))
+			} else {
+				r.OK("R-FRAME.progress", k+": every iteration of the read loop consumes the message", p.instrPos(full), "every path back to the loop head passes the full read", true)
+			}
 			for _, c := range []*ssa.Call{lenCall, full, call} {
 				if c == nil {
 					continue
